@@ -56,8 +56,11 @@ Definition njoin (a b : node) : node :=
 
 (** the documented reading of a normalised variable name: '.'-separated
     segments, all-digit segments are list indices *)
-Definition parse_path (nk : string) : path :=
-  map (fun s => if is_num s then SI (N.to_nat (atoi s)) else SK s) (split_dot nk).
+Definition seg_of (s : string) : seg := if is_num s then SI (N.to_nat (atoi s)) else SK s.
+
+Definition psegs (parts : list string) : path := map seg_of parts.
+
+Definition parse_path (nk : string) : path := psegs (split_dot nk).
 
 Fixpoint strip_prefix (p q : path) : option path :=   (* q = p ++ r  =>  Some r *)
   match p, q with
@@ -94,17 +97,21 @@ Definition kcompat (a b : node) : bool :=
 Definition leaf_payload (c : cfg) : option string :=
   match c with Leaf v => Some v | _ => None end.
 
+(** the name is well formed: no empty segment, list indices within the modelled range *)
+Definition parts_ok (parts : list string) : bool :=
+  forallb (fun s => negb (String.eqb s EmptyString) &&
+                    (negb (is_num s) || (atoi s <=? max_index)%N)) parts.
+
 (** typed environment of the specification: path and scalar payload of every
     variable; None when some value is not read as a scalar (null, flow
-    sequence/mapping) or a segment is empty *)
+    sequence/mapping), a segment is empty or an index is beyond the modelled range *)
 Fixpoint typed_env (to_real : string -> cfg) (ne : list (string * string)) : option (list (path * string)) :=
   match ne with
   | [] => Some []
   | (nk, val) :: r =>
       match leaf_payload (to_real val), typed_env to_real r with
       | Some v, Some r' =>
-          if existsb (fun s => String.eqb s EmptyString) (split_dot nk) then None
-          else Some ((parse_path nk, v) :: r')
+          if parts_ok (split_dot nk) then Some ((parse_path nk, v) :: r') else None
       | _, _ => None
       end
   end.
